@@ -12,7 +12,7 @@ CONSTANTS
   XDurs = {99, 7}
   XSGDs = {0}
   XReps = {99}
-  UNames = {"-", "autogen", "r2", "r3"}
+  UNames = {"-", "", "autogen", "r2", "r3"}
   UDurs = {99, 3}
   USGDs = {99}
   UFull = FALSE
@@ -25,6 +25,7 @@ CONSTANTS
   DropKeepsDefault = TRUE
   RenameKeepsDefault = TRUE
   HalfYearIsLong = TRUE
-INVARIANTS Inv_Names Inv_ShardGroups Inv_Durations
+  RenameAcceptsEmpty = TRUE
+INVARIANTS Inv_ShardGroups Inv_Durations
 VIEW View
 CHECK_DEADLOCK FALSE
